@@ -425,7 +425,7 @@ def _d_mul(a, b):
     return out
 
 
-def r_opsem(ctx):
+def r_opsem(ctx, only=None):
     from .. import opsem
     from ..opsem import AObj, AScalar, ACons, Raised, LeafCreated, OpInterp, dicts_equal, show_dict
     repo = ctx.repo
@@ -446,6 +446,8 @@ def r_opsem(ctx):
     c = S("c")
     n_cases = 0
     for cname in DSL:
+        if only and cname not in only:
+            continue
         cls = repo.cls(cname)
         for op in OPS:
             fn = cls.methods.get(op)
@@ -453,19 +455,23 @@ def r_opsem(ctx):
                 continue
             ctx.unit("%s.%s" % (cname, op))
             unary = len(params_of(fn)) == 1
-            kinds = [None] if unary else ["Point", "Expression", "Function", "int", "float"]
+            kinds = [None] if unary else ["Point", "Expression", "Function", "int", "float", "self"]
             for kind in kinds:
                 n_cases += 1
                 ops_ = operands()
                 me = ops_[cname]
                 arg = None
-                if kind is not None:
+                same_object = kind == "self"
+                if same_object:
+                    kind = cname          # the operand is the receiver itself:  x + x, x - x, x * x, e <= e
+                    arg = me
+                elif kind is not None:
                     arg = ops_[kind + "2"] if kind == cname else ops_[kind]
                 if op == "__pow__":
                     arg = AScalar(Rat(2), "int") if kind == "int" else arg
                 before_me = dict(me.dd)
                 before_arg = dict(arg.dd) if isinstance(arg, AObj) else None
-                key = "%s.%s(%s)" % (cname, op, kind or "")
+                key = "%s.%s(%s)" % (cname, op, ("itself" if same_object else kind) or "")
                 want = _expected(cname, op, me, kind, arg, c)
                 it = OpInterp(repo, cls.module)
                 try:
@@ -501,6 +507,8 @@ def r_opsem(ctx):
                         # operands untouched, result is a new object
                         same = dicts_equal(me.dd, before_me) and len(me.dd) == len(before_me) and (before_arg is None or (dicts_equal(arg.dd, before_arg) and len(arg.dd) == len(before_arg)))
                         fresh = not isinstance(got, AObj) or (got is not me and got is not arg and got.dd is not me.dd and (not isinstance(arg, AObj) or got.dd is not arg.dd))
+                        if isinstance(got, ACons):
+                            fresh = got.expr.dd is not me.dd
                         if not same:
                             ok, msg = False, "an operand is modified: %s -> %s" % (show_dict(before_me), show_dict(me.dd))
                         elif not fresh:
